@@ -109,7 +109,7 @@ Qed.
 Definition x2 : entity := {| en_ty := MSD; en_epoch := 2; en_imm := 0 |}.
 Definition xc : entity := {| en_ty := CDB; en_epoch := 2; en_imm := 1 |}.
 Definition sg_of (x : entity) (p : N) : sg :=
-  {| sg_party := p; sg_set := [0;1;2]; sg_signed := x; sg_idxs := [p; p + 10] |}.
+  {| sg_party := p; sg_set := [0;1;2]; sg_signed := x; sg_idxs := [p; p + 10]; sg_dmq := false |}.
 Definition prefix2 : list ev :=
   [Tick; Reg 0; Reg 1; NewEpoch; Tick; Tick; Tick; Sig (sg_of x2 0) x2; Sig (sg_of x2 1) x2].
 (* epoch 2: the stake distribution, then the database *)
@@ -131,3 +131,69 @@ Proof.
   assert (E : cert_ents (s_certs (run_st 3 [0;1;2] scenario_cut)) = [x2; x2]) by (vm_compute; reflexivity).
   split; [exact E|]. rewrite E. intros H. inversion H; subst. apply H2. left; reflexivity.
 Qed.
+
+(* ---------- ingress paths (HTTP route / DMQ consumer) ---------- *)
+(* whatever the ingress path, a single signature changes the open messages only when it is valid for
+   the entity of an existing, non-certified, non-expired open message under the registration set in
+   force (the DMQ path skips the authentication, never this verification) *)
+Lemma stored_sig_valid s g x :
+  s_oms (on_sig s g x) <> s_oms s ->
+  exists d o, s_ed s = Some d /\ ed_comp d = true /\ find_om (s_oms s) x = Some o /\
+              om_cert o = false /\ om_exp o = false /\ sig_valid_for (ed_cur d) g x = true.
+Proof.
+  unfold on_sig, register. destruct (authenticated _ _); [|intros H; now elim H].
+  destruct (find_om (s_oms s) x) as [o|] eqn:F; [|intros H; now elim H].
+  destruct (om_cert o) eqn:C; [intros H; now elim H|].
+  destruct (om_exp o) eqn:E; [intros H; now elim H|].
+  destruct (s_ed s) as [d|]; [|intros H; now elim H].
+  destruct (ed_comp d) eqn:Cp; cbn [andb]; [|intros H; now elim H].
+  destruct (sig_valid_for (ed_cur d) g x) eqn:V; [|intros H; now elim H].
+  intros _. exists d, o. repeat split; auto.
+Qed.
+(* a signature never touches certificates, signed entities, the runtime state or the registrations *)
+Lemma on_sig_frame s g x :
+  s_certs (on_sig s g x) = s_certs s /\ s_ents (on_sig s g x) = s_ents s /\
+  s_rt (on_sig s g x) = s_rt s /\ s_regs (on_sig s g x) = s_regs s.
+Proof.
+  unfold on_sig. destruct (authenticated _ _); [|auto].
+  destruct (register s x g); cbn; auto.
+Qed.
+(* only an authenticated signature (route) or a DMQ one is ever buffered *)
+Lemma buffered_only_without_open_message s g x :
+  s_buf (on_sig s g x) <> s_buf s -> find_om (s_oms s) x = None /\ authenticated (s_ed s) g = true.
+Proof.
+  unfold on_sig, register. destruct (authenticated _ _) eqn:A; [|intros H; now elim H].
+  destruct (find_om (s_oms s) x) as [o|]; [|auto].
+  destruct (om_cert o); [intros H; now elim H|]. destruct (om_exp o); [intros H; now elim H|].
+  destruct (s_ed s) as [d|]; [|intros H; now elim H].
+  destruct (ed_comp d && sig_valid_for (ed_cur d) g x); intros H; now elim H.
+Qed.
+
+(* signers that saw the epoch change before the aggregator: signatures for the stake distribution of
+   epoch 3, made under the registrations of epoch 2 (the aggregator's NEXT set), arrive while the
+   aggregator is still in epoch 2; they are authenticated by the next-set rule, buffered, handed over
+   when the open message of epoch 3 is created, and seal it with no further signature *)
+Definition x3 : entity := {| en_ty := MSD; en_epoch := 3; en_imm := 0 |}.
+Definition sg_early (p : N) : sg :=
+  {| sg_party := p; sg_set := [0;1]; sg_signed := x3; sg_idxs := [p; p + 10]; sg_dmq := false |}.
+Definition scenario_early : list ev :=
+  scenario ++ [Reg 0; Reg 1; Reg 2; NewEpoch; Sig (sg_early 0) x3; Sig (sg_early 1) x3; Tick; Tick; Tick; Tick].
+Lemma scenario_early_ok :
+  map obs_buf (s_buf (run_st 3 [0;1;2] (scenario ++ [Reg 0; Reg 1; Reg 2; NewEpoch; Sig (sg_early 0) x3; Sig (sg_early 1) x3])))
+    = [OL [ON 0; ON 0]; OL [ON 0; ON 1]] /\
+  map c_ent (s_certs (run_st 3 [0;1;2] scenario_early)) = [None; Some x2; Some xc; Some x3] /\
+  map c_set (s_certs (run_st 3 [0;1;2] scenario_early)) = [[0;1;2]; [0;1;2]; [0;1;2]; [0;1]] /\
+  s_buf (run_st 3 [0;1;2] scenario_early) = [].
+Proof. vm_compute. auto. Qed.
+(* garbage from the DMQ (made under a set that is not in force, for another entity) is buffered without
+   any check, skipped at the hand-over, stays in the buffer and changes no certificate *)
+Definition sg_junk : sg :=
+  {| sg_party := 2; sg_set := [2]; sg_signed := x2; sg_idxs := [1;2;3;4;5]; sg_dmq := true |}.
+Definition scenario_dmq : list ev :=
+  prefix2 ++ [Sig sg_junk xc; Tick; Tick; Sig (sg_of xc 0) xc; Sig (sg_of xc 1) xc; Tick].
+Lemma scenario_dmq_ok :
+  map obs_cert (s_certs (run_st 3 [0;1;2] scenario_dmq)) = map obs_cert (s_certs (run_st 3 [0;1;2] scenario)) /\
+  map obs_buf (s_buf (run_st 3 [0;1;2] scenario_dmq)) = [OL [ON 2; ON 2]] /\
+  s_buf (run_st 3 [0;1;2] (prefix2 ++ [Sig (sg_of xc 2) xc])) <> [] /\
+  s_buf (run_st 3 [0;1;2] (prefix2 ++ [Sig {| sg_party := 2; sg_set := [2]; sg_signed := x2; sg_idxs := [1]; sg_dmq := false |} xc])) = [].
+Proof. vm_compute. repeat split; auto. discriminate. Qed.
